@@ -407,7 +407,9 @@ Qed.
 Lemma K_next s dis : length (bufs s) = NB ->
   no_alloc_or_room s (fst (ex_next Lo s dis)) -> K s (fst (ex_next Lo s dis)).
 Proof.
-  intros Hl Hroom. unfold ex_next in *. destruct (nth_path (args s) _) as [p|]; [|apply K_refl].
+  intros Hl Hroom. unfold ex_next in *. revert Hroom.
+  generalize (match nth_path (args s) (next_pos s) with Some _ => (next_pos s + dis)%Z | None => (-1)%Z end). intros idx Hroom.
+  destruct (nth_path (args s) idx) as [p|]; [|apply K_refl].
   destruct (ec_edit Lo s false false (PLit p)) as [[s1 evs] ok] eqn:E. cbn [fst] in *.
   assert (K s s1).
   { pose proof (K_edit s false false (PLit p) Hl) as H. rewrite E in H. cbn [fst] in H. apply H.
@@ -474,6 +476,118 @@ Theorem frame_step s c : length (bufs s) = NB -> c <> CBufRenum ->
 Proof.
   intros Hl Hr Hroom. unfold ex_command in *. pose proof (frame_exec s c Hl Hr) as H.
   destruct (ex_exec Lo s c) as [s1 evs]. cbn [fst] in *. eapply K_Kp; [apply H; exact Hroom | apply Kp_upd0_bump].
+Qed.
+
+
+(* ---------- the table keeps its length ---------- *)
+Lemma renum_length (l : list slot) : forall n, length (fst (renum l n)) = length l.
+Proof.
+  induction l as [|[b|] r IH]; intro n; cbn; [reflexivity| |].
+  - specialize (IH (n + 1)%Z). destruct (renum r (n + 1)); cbn in *. congruence.
+  - specialize (IH n). destruct (renum r n); cbn in *. congruence.
+Qed.
+Lemma goto_length s idx : length (bufs (fst (buffer_goto Lo s idx))) = length (bufs s).
+Proof.
+  unfold buffer_goto. destruct idx as [i|]; [|reflexivity]. destruct (occupied s i); [|reflexivity].
+  destruct (xwa s); [apply switch_fields|].
+  pose proof (modified_fields s 0) as M. destruct (bufs_modified Lo s 0) as [s1 d]. cbn [fst] in *. destruct M as [M _].
+  destruct d; cbn [fst]; [exact M|]. rewrite <- M. apply switch_fields.
+Qed.
+Lemma edit_read_length s named : length (bufs (fst (edit_read Lo s named))) = length (bufs s).
+Proof. unfold edit_read. destruct (slot0 s); cbn; [apply upd0_length|reflexivity]. Qed.
+Lemma edit_length s bang ew a : length (bufs (fst (fst (ec_edit Lo s bang ew a)))) = length (bufs s).
+Proof.
+  unfold ec_edit.
+  assert (P : length (bufs (fst (if bang || xwa s then (s, false) else bufs_modified Lo s 0))) = length (bufs s)).
+  { destruct (bang || xwa s); [reflexivity|apply modified_fields]. }
+  destruct (if bang || xwa s then (s, false) else bufs_modified Lo s 0) as [s0 refused]. cbn [fst] in P.
+  destruct refused; cbn [fst]; [exact P|]. destruct (pathexpand s0 a) as [p|]; cbn [fst]; [|exact P].
+  set (nonempty := match p with [] => false | _ => true end).
+  set (s1 := if nonempty && ew then match bufs_find s0 p with Some i => if (1 <? i)%nat then bufs_switch s0 1 else s0 | None => s0 end else s0).
+  assert (P1 : length (bufs s1) = length (bufs s)).
+  { unfold s1. destruct (nonempty && ew); [|exact P]. destruct (bufs_find s0 p); [|exact P]. destruct (1 <? n)%nat; [|exact P].
+    rewrite <- P. apply switch_fields. }
+  clearbody s1. destruct (if nonempty then bufs_find s1 p else None); cbn [fst].
+  - rewrite <- P1. apply switch_fields.
+  - set (s2 := if nonempty || is_free (slot0 s1) then let (s', idx) := bufs_open Lo s1 p in bufs_switch s' idx else s1).
+    assert (P2 : length (bufs s2) = length (bufs s)).
+    { unfold s2. destruct (nonempty || is_free (slot0 s1)); [|exact P1]. unfold bufs_open.
+      destruct (switch_fields (bufs_init Lo s1 (bufs_findroom s1) (canon p)) (bufs_findroom s1)) as [X _]. rewrite X.
+      unfold bufs_init. cbn. rewrite set_nth_length. exact P1. }
+    clearbody s2. pose proof (edit_read_length s2 nonempty) as E. destruct (edit_read Lo s2 nonempty). cbn [fst] in *. congruence.
+Qed.
+Lemma next_length s dis : length (bufs (fst (ex_next Lo s dis))) = length (bufs s).
+Proof.
+  unfold ex_next. generalize (match nth_path (args s) (next_pos s) with Some _ => (next_pos s + dis)%Z | None => (-1)%Z end). intro idx.
+  destruct (nth_path (args s) idx) as [p|]; [|reflexivity].
+  pose proof (edit_length s false false (PLit p)) as E. destruct (ec_edit Lo s false false (PLit p)) as [[s1 evs] ok]. cbn [fst] in *.
+  destruct ok; cbn; congruence.
+Qed.
+Lemma quit_walk_length : forall n s i, length (bufs (fst (quit_walk Lo s i n))) = length (bufs s).
+Proof.
+  induction n as [|n IH]; intros s i; cbn [quit_walk]; [reflexivity|].
+  pose proof (modified_fields s i) as M. destruct (bufs_modified Lo s i) as [s1 d]. cbn [fst] in M. destruct M as [M _].
+  destruct d; cbn [fst].
+  - rewrite <- M. apply switch_fields.
+  - rewrite IH. exact M.
+Qed.
+Lemma step_length s c : length (bufs s) = NB -> length (bufs (fst (ex_command Lo s c))) = NB.
+Proof.
+  intro Hl. unfold ex_command.
+  assert (H : length (bufs (fst (ex_exec Lo s c))) = NB).
+  { destruct c; cbn [ex_exec].
+    - pose proof (edit_length s bang ew a) as E. destruct (ec_edit Lo s bang ew a) as [[s1 evs] ok]. cbn [fst] in *. congruence.
+    - unfold ec_buffer_list. pose proof (list_walk_spec (bufs s) 0) as [E _]. destruct (list_walk Lo (bufs s) 0). cbn in *. congruence.
+    - unfold ec_buffer_del. cbn [fst].
+      assert (X : length (bufs (bufs_shift s)) = NB).
+      { unfold bufs_shift, bufs_load. destruct (slot0 _); cbn; rewrite app_length; destruct (bufs s); cbn in *; try lia; (assert (0 < NB)%nat by (vm_compute; lia)); lia. }
+      destruct (slot0 (bufs_shift s)); [exact X|]. unfold bufs_init. cbn. rewrite set_nth_length. exact X.
+    - unfold ec_buffer_renum, bufs_number. cbn [fst]. pose proof (renum_length (bufs s) 0) as R. destruct (renum (bufs s) 0). cbn in *. congruence.
+    - unfold ec_buffer_id. rewrite goto_length. exact Hl.
+    - unfold ec_buffer_next. rewrite goto_length. exact Hl.
+    - unfold ec_buffer_prev. rewrite goto_length. exact Hl.
+    - unfold ec_buffer_alias. rewrite goto_length. exact Hl.
+    - rewrite next_length. exact Hl.
+    - rewrite next_length. exact Hl.
+    - unfold ec_quit. destruct bang; [exact Hl|]. pose proof (quit_walk_length NB s 0) as Q. destruct (quit_walk Lo s 0 NB) as [s1 f]. cbn [fst] in *.
+      destruct f; change (length (bufs s1) = NB); rewrite Q; exact Hl.
+    - unfold ec_write. destruct (slot0 s) as [b|]; [|exact Hl].
+      destruct (negb bang && _); [exact Hl|]. destruct (negb bang && _ && _); [exact Hl|].
+      destruct (match p with Some q => q | None => b_path b end); [exact Hl|]. cbn [fst].
+      destruct (b_path b); cbn; rewrite upd0_length; exact Hl.
+    - exact Hl.
+    - unfold ec_op. destruct (slot0 s) as [b0|]; [|exact Hl]. destruct (lb_op Lo o (b_lb b0) (xv s)) as [[lb' v'] out]. cbn. rewrite upd0_length. exact Hl. }
+  destruct (ex_exec Lo s c) as [s1 evs]. cbn in *. rewrite upd0_length. exact H.
+Qed.
+
+(* ---------- isolation over whole histories ---------- *)
+(* the history stays inside the property's quantifier: no renumbering, and a new buffer is only
+   allocated while a slot is free (at most NB buffers) *)
+Fixpoint safe (s : st) (cs : list (cmd Op)) : Prop :=
+  match cs with
+  | [] => True
+  | c :: r => xquit s = true \/
+              (c <> CBufRenum /\ no_alloc_or_room s (fst (ex_command Lo s c)) /\ safe (fst (ex_command Lo s c)) r)
+  end.
+
+Theorem isolation_run : forall cs s j b, length (bufs s) = NB -> (1 <= j)%nat -> nth_error (bufs s) j = Some (Some b) -> safe s cs ->
+  (exists j' b', (1 <= j')%nat /\ nth_error (bufs (run Lo s cs)) j' = Some (Some b') /\ same_buf b b')
+  \/ (exists pre c post b', cs = pre ++ c :: post /\ slot0 (run Lo s (pre ++ [c])) = Some b' /\ same_buf b b' /\
+                            xv (run Lo s (pre ++ [c])) = b_view b).
+Proof.
+  induction cs as [|c r IH]; intros s j b Hl Hj Hb Hs.
+  - left. exists j, b. cbn. auto using same_refl.
+  - cbn [run]. destruct (xquit s) eqn:Q.
+    + left. exists j, b. auto using same_refl.
+    + cbn [safe] in Hs. destruct Hs as [Hs|(Hr & Hroom & Hs)]; [congruence|].
+      pose proof (frame_step s c Hl Hr Hroom j b Hj Hb) as (j' & b' & A & B & C).
+      destruct j' as [|j'].
+      * right. exists [], c, r, b'. cbn [app run]. rewrite Q. split; [reflexivity|]. split; [rewrite slot0_nth, A; reflexivity|]. split; [exact B|].
+        apply C. reflexivity.
+      * destruct (IH (fst (ex_command Lo s c)) (S j') b' (step_length s c Hl) ltac:(lia) A Hs) as [(j2 & b2 & X1 & X2 & X3)|(pre & c' & post & b2 & X1 & X2 & X3 & X4)].
+        -- left. exists j2, b2. split; [exact X1|]. split; [exact X2|]. eapply same_trans; eauto.
+        -- right. exists (c :: pre), c', post, b2. cbn [app run]. rewrite Q. split; [rewrite X1; reflexivity|]. split; [exact X2|].
+           split; [eapply same_trans; eauto|]. rewrite X4. apply same_view. exact B.
 Qed.
 
 End Props.
